@@ -14,6 +14,11 @@
 (*                      step or prefix of the node                         *)
 (*   LeftChildB         getLeftChildID: rank of the label bit              *)
 (*   GetIDB             the descent of GetID                               *)
+(*   SearchIDB          searchID with leftMost / rightMost                 *)
+(*   ScanB              getGEPath + the iterator: next leaf via the rank   *)
+(*                      of a node's last label, keys re-assembled from     *)
+(*                      stored prefixes, label bit positions and leaf      *)
+(*                      tails, values from the leaf array                  *)
 (*                                                                         *)
 (* The design check MC_Reader shows, in every small world, for every       *)
 (* option combination and every query string, that GetIDB on Encode(c)     *)
@@ -162,4 +167,95 @@ SearchBFrom(m, q, id, i, L, R) ==
 SearchIDB(m, q) ==
   LET r == SearchBFrom(m, q, 0, 0, -1, -1) IN
   << IF r[1] = -1 THEN -1 ELSE RightMostB(m, r[1]), r[2], IF r[3] = -1 THEN -1 ELSE LeftMostB(m, r[3]) >>
+
+\* ---- scanning on the stored form (slimtrie_scan.go: getGEPath, newIter, scanStackElt) ----
+\* the labels of inner node n in ascending order (label bit positions inside the node:
+\* 0 = the empty label, b = half-byte or byte value b - 1)
+LabelsB(m, n) ==
+  SetToSortSeq(IF n.short THEN BitsOfNum(n.bm17, 0) ELSE {b - n.from : b \in {x \in m.inners.bits : x >= n.from /\ x < n.to}}, <)
+FirstChildB(m, n) == Rank128B(m.inners, n.from)[1] + 1
+LastChildB(m, n)  == OnesUpTo(m, n.to - 1)
+
+RECURSIVE LeftMostPathB(_, _)
+LeftMostPathB(m, id) ==
+  LET n == GetNodeB(m, id) IN IF ~n.inner THEN <<id>> ELSE <<id>> \o LeftMostPathB(m, FirstChildB(m, n))
+
+\* getGEPath: descent with the right-hand candidate
+RECURSIVE GEBFrom(_, _, _, _, _, _, _)
+GEBFrom(m, q, id, i, path, rID, rLen) ==
+  LET n == GetNodeB(m, id) IN
+  IF ~n.inner THEN [eq |-> id, i |-> i, path |-> path, rID |-> rID, rLen |-> rLen, atLeaf |-> TRUE, ith |-> n.ithLeaf]
+  ELSE
+    LET pre == IF n.hasPrefix THEN CmpPrefixB(q, i, n.prefix) ELSE 0
+        i2  == IF n.hasPrefix THEN (i - (i % 2)) + PrefixLenNibs(n.prefix) ELSE i
+    IN IF pre < 0 THEN [eq |-> -1, i |-> i, path |-> path, rID |-> id, rLen |-> Len(path), atLeaf |-> FALSE, ith |-> 0]
+       ELSE IF pre > 0 THEN [eq |-> -1, i |-> i, path |-> path, rID |-> rID, rLen |-> rLen, atLeaf |-> FALSE, ith |-> 0]
+       ELSE
+         LET path2 == Append(path, id)
+             w     == IF n.big THEN 2 ELSE 1
+             c     == IF i2 < NibLen(q) THEN Label(q, i2, w) ELSE 0
+             lc    == LeftChildB(m, n, c)
+             ch    == lc[1] + lc[2]
+             more  == ch + 1 <= LastChildB(m, n)
+             rID2  == IF more THEN ch + 1 ELSE rID
+             rLen2 == IF more THEN Len(path2) ELSE rLen
+         IN IF lc[2] = 0 THEN [eq |-> -1, i |-> i2, path |-> path2, rID |-> rID2, rLen |-> rLen2, atLeaf |-> FALSE, ith |-> 0]
+            ELSE IF i2 = NibLen(q) THEN [eq |-> ch, i |-> i2, path |-> path2, rID |-> rID2, rLen |-> rLen2, atLeaf |-> FALSE, ith |-> 0]
+            ELSE GEBFrom(m, q, ch, i2 + w, path2, rID2, rLen2)
+
+GEPathB(m, q) ==
+  IF m.nodetype.bits = {} /\ m.nodetype.nwords <= 0 THEN [path |-> <<>>, eq |-> FALSE]
+  ELSE
+    LET d == GEBFrom(m, q, 0, 0, <<>>, -1, -1)
+        r == IF d.eq = -1 THEN 2
+             ELSE Cmp(TailFrom(q, d.i), IF d.atLeaf THEN LeafTailB(m, d.ith) ELSE <<>>)
+    IN IF d.eq # -1 /\ r <= 0 THEN [path |-> Append(d.path, d.eq), eq |-> (r = 0)]
+       ELSE IF d.rID = -1 THEN [path |-> <<>>, eq |-> FALSE]
+       ELSE [path |-> SubSeq(d.path, 1, d.rLen) \o LeftMostPathB(m, d.rID), eq |-> FALSE]
+
+\* next(): the deepest parent on the path that has a further child; <<>> when exhausted
+RECURSIVE NextPathB(_, _, _)
+NextPathB(m, path, j) ==
+  IF j < 1 THEN <<>>
+  ELSE LET n == GetNodeB(m, path[j]) IN
+       IF path[j + 1] + 1 <= LastChildB(m, n)
+       THEN SubSeq(path, 1, j) \o LeftMostPathB(m, path[j + 1] + 1)
+       ELSE NextPathB(m, path, j - 1)
+
+\* the key re-assembled from stored prefixes, labels and the leaf tail, in half-bytes
+RECURSIVE KeyNibsB(_, _, _, _)
+KeyNibsB(m, path, j, nibs) ==
+  LET n == GetNodeB(m, path[j]) IN
+  IF ~n.inner
+  THEN [x \in 1..((Len(nibs) - (Len(nibs) % 2)) \div 2) |-> 16 * nibs[2 * x - 1] + nibs[2 * x]]
+       \o LeafTailB(m, n.ithLeaf)
+  ELSE
+    LET a     == Len(nibs) - (Len(nibs) % 2)
+        pn    == IF n.hasPrefix THEN NibsOfBytes(SubSeq(n.prefix, 1, Len(n.prefix) - 1)) ELSE <<>>
+        withp == IF n.hasPrefix THEN SubSeq(nibs, 1, a) \o SubSeq(pn, 1, PrefixLenNibs(n.prefix)) ELSE nibs
+        lb    == LabelsB(m, n)[path[j + 1] - FirstChildB(m, n) + 1]
+        withl == IF lb = 0 THEN withp
+                 ELSE IF n.big THEN withp \o <<(lb - 1) \div 16, (lb - 1) % 16>>
+                 ELSE Append(withp, lb - 1)
+    IN KeyNibsB(m, path, j + 1, withl)
+
+\* VLenArray.get on the leaf values
+LeafValueB(m, ith) ==
+  IF ~m.leaves.present \/ ith \notin m.leaves.presence.bits THEN <<>>
+  ELSE LET k == Rank64B(m.leaves.presence, ith)[1] IN
+       IF m.leaves.position.nwords < 0 THEN SubSeq(m.leaves.bytes, k * m.leaves.fixed + 1, (k + 1) * m.leaves.fixed)
+       ELSE LET rng == Select32R64B(m.leaves.position, k) IN SubSeq(m.leaves.bytes, rng[1] + 1, rng[2])
+
+RECURSIVE ScanFromPathB(_, _)
+ScanFromPathB(m, path) ==
+  IF path = <<>> THEN <<>>
+  ELSE LET lf == path[Len(path)] IN
+       <<[key |-> KeyNibsB(m, path, 1, <<>>), leaf |-> lf, val |-> LeafValueB(m, GetNodeB(m, lf).ithLeaf)]>>
+       \o ScanFromPathB(m, NextPathB(m, path, Len(path) - 1))
+
+\* what NewIter(start, inclStart, withValue = true) yields until exhaustion
+ScanB(m, start, inclStart) ==
+  LET g == GEPathB(m, start) IN
+  IF g.path = <<>> THEN <<>>
+  ELSE ScanFromPathB(m, IF g.eq /\ ~inclStart THEN NextPathB(m, g.path, Len(g.path) - 1) ELSE g.path)
 =============================================================================
